@@ -1,8 +1,9 @@
 (* C01 — Object store: content addressing and lossless round trip.
    This file only states the property theorems and closes each with [exact]. *)
-From Coq Require Import Strings.Byte.
+From Coq Require Import Strings.String Strings.Byte.
 From Coq Require Import List NArith ZArith.
 From Goit Require Import Bytes Sha1 Obj BytesFacts ObjFacts.
+From Goit Require Import World Repo BranchFacts ExactFacts ObjCmdFacts.
 Import ListNotations.
 Local Open Scope N_scope.
 
@@ -58,6 +59,43 @@ Proof. exact get_obj_integrity. Qed.
 Example C01_nonvacuous : no_collision ex_st ex_l /\ Forall (fun kd => lenN (snd kd) < 2 ^ 63) ex_l.
 Proof. exact hypotheses_satisfiable. Qed.
 
+
+(* ---------- Part 2: the commands ---------- *)
+(* `add` of a file then `cat-file` / `hash-object`: for every byte string (empty,
+   NULs, header-like ...) the blob comes back with kind blob and exactly the
+   file's bytes, and hash-object prints the id under which it was stored *)
+Theorem C01_add_then_cat_file : forall e e1 e2 e3 w x p data,
+  w_inited w = true -> ctx_of w = Some x -> wt_stat w p = SFile -> ignored w (x_pats x) p = false ->
+  am_get (w_files w) p = Some data -> lenN data < 2 ^ 63 ->
+  (staged w p = Some (blob_id data) -> get_obj (w_objs w) (blob_id data) = Some (KBlob, data)) ->
+  exists w' tr, step (ACmd e (CAdd [p])) w = (w', OOk [], tr) /\
+    (w_coll w' = false ->
+     step (ACmd e1 (CCatFile false true [hex (blob_id data)])) w' = (w', OOk [data], []) /\
+     step (ACmd e2 (CCatFile true false [hex (blob_id data)])) w' = (w', OOk [kind_s KBlob], []) /\
+     step (ACmd e3 (CHashObject [p])) w' = (w', OOk [hex (blob_id data)], [])).
+Proof. exact step_add_then_cat_file. Qed.
+
+(* the blob id is Git's: SHA-1 of "blob <len>\0<bytes>" *)
+Theorem C01_blob_id_is_gits : forall data,
+  blob_id data = sha1 (str "blob "%string ++ dec (lenN data) ++ [c_nul] ++ data).
+Proof. exact blob_id_is_git_id. Qed.
+
+(* whatever the store contains, cat-file -p only ever prints the content of a
+   file that hashes to the requested id *)
+Theorem C01_cat_file_integrity : forall t a s out s',
+  cmd_cat_file t true [a] s = (Ok out, s') ->
+  s' = s /\ t = false /\
+  exists id k d payl, read_hash a = Some id /\ get_obj (w_objs (ms_w s)) id = Some (k, d) /\
+    st_lookup (w_objs (ms_w s)) id = Some payl /\ sha1 payl = id /\ parse_payload payl = Some (k, d) /\
+    (k <> KTree -> out = [d]).
+Proof. exact cat_file_integrity. Qed.
+
+(* over every history of commands and edits an object that can be read stays
+   readable with the same kind and bytes (absent a flagged collision) *)
+Theorem C01_objects_never_lost : forall h w id kd,
+  get_obj (w_objs w) id = Some kd -> w_coll (run h w) = false -> get_obj (w_objs (run h w)) id = Some kd.
+Proof. exact objects_never_lost. Qed.
+
 Print Assumptions C01_payload_roundtrip.
 Print Assumptions C01_id_is_sha1_of_payload.
 Print Assumptions C01_get_put.
@@ -66,3 +104,7 @@ Print Assumptions C01_put_again.
 Print Assumptions C01_history_retrievable.
 Print Assumptions C01_history_preserves.
 Print Assumptions C01_get_integrity.
+Print Assumptions C01_add_then_cat_file.
+Print Assumptions C01_blob_id_is_gits.
+Print Assumptions C01_cat_file_integrity.
+Print Assumptions C01_objects_never_lost.
